@@ -528,6 +528,11 @@ def check_c12(run):
     pairs = run_fmm_configs(run, "C12", cs)
     # code -> spec: staged executes recorded on large random trees: every call of every stage must be an enabled batch, nothing pending at the end
     trace_campaign(run, "C12", run.tier, modes=(0, 1), events=4)
+    # the flag chain and the upper working level of the OpenMP executors (sequential = reference), staged histories, under the mock-runtime schedules
+    for name, consts in OMP_STOPS:
+        opairs, mism, _ = omp_campaign(run, "C12-" + name, consts, run.tier, graphs=0)
+        report_mismatches(run, "C12", "C12-" + name, opairs, [(k, re.sub(r"-(immediate|deferred|tlc)-.*$", "", key), "%s [%s]" % (t, key)) for k, key, t in mism],
+                          ["SameAsSequential", "Crash"])
     # staged histories must end in the state of the single full run (model side: compare the digests TLC printed)
     byocc = {}
     for r, line in pairs:
@@ -538,7 +543,7 @@ def check_c12(run):
             run.machinery_errors.append("model: staged histories differ from the full run for %s" % (key,))
     run.coverage["rule"] = FMM_RULE + "; histories: the full run, the documented three-stage split, six single-flag calls, near-first and far/near orders (all must end in the same state), and partial runs (near field only, upward only, upward then transfer); the WriteSets action property and NothingAboveStopLevel are checked by TLC on every step, and on the real buffers by byte hashes of the multipole / local / result families before and after every execute()"
     run.coverage["exhaustive"] = True
-    run.assumptions += FMM_ASSUME + ["OpenMP executor histories are covered by C03"]
+    run.assumptions += FMM_ASSUME + ["further OpenMP executor histories are covered by C03"]
 
 
 @check("C13", "model_checking")
@@ -594,6 +599,8 @@ def check_c01(run):
     run_fmm_configs(run, "C01", cs)
     # beyond the enumerated pools: recorded executions of large random trees validated by TLC (nothing lost, nothing twice)
     trace_campaign(run, "C01", run.tier, events=4)
+    # dense trees (every leaf occupied, resp. a fully occupied 6^3 block whose central cells own the maximal interaction list), several particles in some leaves
+    trace_campaign(run, "C01", run.tier, events=8, classes=DENSE_CLASSES[run.tier])
     run.coverage["rule"] = FMM_RULE + "; plus code->spec trace validation: recorded kernel-call traces of random trees (1-D height 7-8, 2-D height 5-6, 3-D height 4-5, up to 60 particles) must be accepted by FmmTrace.tla"
     run.coverage["exhaustive"] = True
     run.assumptions += FMM_ASSUME
@@ -602,15 +609,22 @@ def check_c01(run):
 # =====================================================================================================
 # code -> spec: traces recorded from the real executors on large random trees, validated by TLC (FmmTrace.tla)
 # =====================================================================================================
-def trace_validate(run, name, dim, height, periodic, mode, nexec, maxn, pid, events=0):
+def trace_validate(run, name, dim, height, periodic, mode, nexec, maxn, pid, events=0, variant="plain"):
     """Record nexec executions (sequential / OpenMP under a seeded random mock schedule alternate) of trees with up to maxn particles and
     let TLC accept or reject the concatenated trace: every kernel call must be an enabled batch of the dataflow layer with exactly
     its logged arguments; End requires that nothing is pending."""
-    binp = need(build("record_fmm_%d_%d" % (dim, int(periodic)), "record_fmm.cpp", ["DIMV=%d" % dim, "PERIODICV=%d" % int(periodic), "CAPV=1024"]), run)
-    rc, out, err = run_bin(binp, [height, run.seed, nexec, maxn, mode, events], timeout=600)
+    binp = need(build("record_fmm_%d_%d%s" % (dim, int(periodic), "_asan" if variant == "asan" else ""), "record_fmm.cpp",
+                      ["DIMV=%d" % dim, "PERIODICV=%d" % int(periodic), "CAPV=1024"], variant=variant), run)
+    rc, out, err = run_bin(binp, [height, run.seed, nexec, maxn, mode, events], timeout=900)
     if rc != 0 or not out.startswith('{"e":"Init"'):
+        if rc in (98, 99) or "Sanitizer" in err or "runtime error" in err:
+            run.violation("Sanitizer:" + name, "sanitizer report while a session was recorded (record_fmm %s): %s" % (" ".join(map(str, [height, run.seed, nexec, maxn, mode, events])),
+                          " | ".join([l for l in err.strip().splitlines() if "ERROR" in l or "runtime error" in l or "SUMMARY" in l][:3])[:400]),
+                          run.write_replay("Sanitizer-" + name, {"kind": "record", "dim": dim, "periodic": periodic, "variant": variant, "args": [height, run.seed, nexec, maxn, mode, events]}))
+            return
         if rc == 3 or "MISMATCH kind=Crash" in out:
-            run.violation("Crash:" + name, "the executor crashed while a trace was recorded: " + out[-300:], None)
+            run.violation("Crash:" + name, "the executor crashed while a trace was recorded: " + out[-300:],
+                          run.write_replay("Crash-" + name, {"kind": "record", "dim": dim, "periodic": periodic, "variant": variant, "args": [height, run.seed, nexec, maxn, mode, events]}))
             return
         raise vlib.HarnessError("record_fmm failed (%s): %s" % (rc, (err or out)[-300:]))
     tdir = os.path.join(CACHE, "traces")
@@ -626,7 +640,10 @@ def trace_validate(run, name, dim, height, periodic, mode, nexec, maxn, pid, eve
     log_txt = open(res.logpath).read()
     accepted = "Model checking completed. No error has been found." in log_txt and "Accepted" not in [l for l in log_txt.splitlines() if "violated" in l.lower() or "Error" in l].__str__()
     m = re.search(r"The depth of the complete state graph search is (\d+)", log_txt)
-    consumed = int(m.group(1)) - 1 if m else 0
+    if not m:
+        # TLC did not finish (timeout, out of memory, parse error): never a verdict
+        raise vlib.HarnessError("TLC did not complete the validation of trace %s (%s)" % (name, res.logpath))
+    consumed = int(m.group(1)) - 1
     res.ok = True
     run.add_tlc(name, res, note="FmmTrace.tla on %d recorded sessions (%d events: kernel calls%s%s%s) of dim %d height %d %s trees with up to %d particles; consumed %d events" % (
         nexec, nlines, ", group structures" if events & 1 else "", ", look-ups" if events & 2 else "", ", staged executes and move/rebuild/second pass" if events & 4 else "",
@@ -648,7 +665,10 @@ def trace_validate(run, name, dim, height, periodic, mode, nexec, maxn, pid, eve
         os.remove(tpath)
 
 
-def trace_campaign(run, pid, tier, modes=(0,), periodic=False, events=0, classes=None):
+DENSE_CLASSES = {"quick": [(1, 7, 2, 1), (2, 5, 1, 1), (3, 4, 2, 1)], "thorough": [(1, 8, 4, 1), (2, 5, 4, 1), (2, 6, 1, 1), (3, 4, 4, 1), (3, 5, 2, 1), (4, 3, 1, 1)]}
+
+
+def trace_campaign(run, pid, tier, modes=(0,), periodic=False, events=0, classes=None, variant="plain"):
     """events: bit mask of record_fmm (1 group structures, 2 look-ups, 4 staged executes and move / rebuild / second pass)"""
     if classes is None:
         if tier == "quick":
@@ -658,7 +678,7 @@ def trace_campaign(run, pid, tier, modes=(0,), periodic=False, events=0, classes
     jobs = [(d, h, n, mx, m) for (d, h, n, mx) in classes for m in modes]
     with ThreadPoolExecutor(max_workers=4) as ex:
         list(ex.map(lambda j: trace_validate(run, "%s-trace%s-%dd-h%d-%s%s" % (pid, ("-ev%d" % events) if events else "", j[0], j[1], "tsm" if j[4] else "single", "-per" if periodic else ""),
-                                             j[0], j[1], periodic, j[4], j[2], j[3], pid, events), jobs))
+                                             j[0], j[1], periodic, j[4], j[2], j[3], pid, events, variant), jobs))
 
 
 # =====================================================================================================
@@ -795,6 +815,12 @@ def taskruntime_on(run, name, gall, tier, pairs):
 C03_KINDS = ["SameAsSequential", "Covered", "Crash", "Sanitizer", "WorkerKernelBound", "KernelPerWorker", "RuntimeApi", "Arg", "ExecPreservesSymbolic", "WriteSets", "Counters"]
 
 
+# non-default upper working levels (above, at and below the leaf level) through the task executors
+OMP_STOPS = [("omp-1d-h4-stops", fmm_constants(1, 4, [0, 1, 2, 5, 6, 7], bss=(1, 2, 20), stops=(0, 1, 3, 4), hists=("full", "stages3"))),
+             ("omp-2d-h3-stops", fmm_constants(2, 3, [0, 3, 5, 10, 15], bss=(1, 2), stops=(0, 1, 3))),
+             ("omp-tsm-1d-h4-stops", fmm_constants(1, 4, [0, 2, 5, 7], mode="tsm", bss=(1, 2), stops=(0, 1, 3, 4)))]
+
+
 def omp_configs(tier):
     if tier == "quick":
         return [("omp-1d-h5", fmm_constants(1, 5, POOL_1D_H5[:7], bss=(1, 2, 3, 20), hists=("full", "stages3", "farnear", "nearfirst"))),
@@ -802,8 +828,8 @@ def omp_configs(tier):
                 ("omp-3d-h4", fmm_constants(3, 4, POOL_3D_H4[:5], bss=(1, 2, 20))),
                 ("omp-1d-h5-multi", fmm_constants(1, 5, POOL_1D_H5[:5], maxper=2, bss=(1, 2, 20))),
                 ("omp-tsm-1d-h5", fmm_constants(1, 5, POOL_1D_H5[:5], mode="tsm", bss=(1, 2, 20))),
-                ("omp-tsm-2d-h4", fmm_constants(2, 4, POOL_2D_H4[:4], mode="tsm", bss=(1, 2)))]
-    return [("omp-1d-h5", fmm_constants(1, 5, POOL_1D_H5, bss=(1, 2, 3, 5, 20), hists=("full", "stages3", "single6", "farnear", "nearfirst", "uponly", "m2lafterup"))),
+                ("omp-tsm-2d-h4", fmm_constants(2, 4, POOL_2D_H4[:4], mode="tsm", bss=(1, 2)))] + OMP_STOPS
+    return OMP_STOPS + [("omp-1d-h5", fmm_constants(1, 5, POOL_1D_H5, bss=(1, 2, 3, 5, 20), hists=("full", "stages3", "single6", "farnear", "nearfirst", "uponly", "m2lafterup"))),
             ("omp-1d-h6", fmm_constants(1, 6, POOL_1D_H6, bss=(1, 2, 3, 20))),
             ("omp-2d-h4", fmm_constants(2, 4, POOL_2D_H4[:8], bss=(1, 2, 3, 20), stops=(0, 2))),
             ("omp-3d-h4", fmm_constants(3, 4, POOL_3D_H4[:7], bss=(1, 2, 3, 20))),
@@ -819,7 +845,8 @@ def omp_configs(tier):
 def check_c03(run):
     q = run.tier == "quick"
     shared = [("1d-h5", fmm_constants(1, 5, POOL_1D_H5[:7], bss=(1, 2, 3, 20))), ("3d-h4", fmm_constants(3, 4, POOL_3D_H4[:5], bss=(1, 2, 20))),
-              ("tsm-1d-h5", fmm_constants(1, 5, POOL_1D_H5[:4], mode="tsm", bss=(1, 2, 20)))]
+              ("tsm-1d-h5", fmm_constants(1, 5, POOL_1D_H5[:4], mode="tsm", bss=(1, 2, 20))),
+              ("1d-h4-stops", fmm_constants(1, 4, [0, 1, 2, 5, 6, 7], bss=(1, 2, 20), stops=(0, 1, 3, 4)))]
     if not q:
         shared += [("2d-h4", fmm_constants(2, 4, POOL_2D_H4[:7], bss=(1, 2, 3, 20), hists=("full", "stages3"))), ("tsm-2d-h4", fmm_constants(2, 4, POOL_2D_H4[:4], mode="tsm", bss=(1, 2)))]
     jobs = [("omp-" + n, c, "omp") for n, c in omp_configs(run.tier)]
@@ -1139,6 +1166,10 @@ def check_c15(run):
     for name, consts in omp_configs("quick")[:: (2 if small else 1)]:
         pairs, mism, _ = omp_campaign(run, "C15-omp-" + name, consts, "quick", variant="asan", graphs=0, limit=80 if small else 500)
         report_mismatches(run, "C15", "C15-omp-" + name, pairs, [(k, re.sub(r"-(immediate|deferred|tlc)-.*$", "", key), "%s [%s]" % (t, key)) for k, key, t in mism], ["Sanitizer", "Crash"])
+    # sessions on large random and on dense trees (full interaction lists: the wrappers' stack arrays are filled to capacity) recorded on the sanitizer build,
+    # with look-ups, staged executes, moves and rebuild; the traces are validated by TLC as in C01
+    trace_campaign(run, "C15", run.tier, modes=(0, 1), events=7, variant="asan")
+    trace_campaign(run, "C15", run.tier, events=8, classes=DENSE_CLASSES[run.tier], variant="asan")
     run.coverage["rule"] = ("one case = one TLC-generated scenario (tree, history of execute/move/rebuild calls, for the task executors each of 6 schedules incl. full deferral) "
                             "executed on a -fsanitize=address,undefined -UNDEBUG -ftrivial-auto-var-init=pattern build with leak detection and detect_stack_use_after_return; "
                             "a sanitizer report, a failed library assertion or a fault is the violation; non-trivial = at least two occupied leaves and two groups at some level")
@@ -1222,6 +1253,15 @@ def cmd_replay(args):
         print(out[-3000:])
         mism, summary = parse_harness_output(out)
         return 1 if mism else 0
+    if obj.get("kind") == "record":
+        binp, err = build("record_fmm_%d_%d%s" % (obj["dim"], int(obj["periodic"]), "_asan" if obj.get("variant") == "asan" else ""), "record_fmm.cpp",
+                          ["DIMV=%d" % obj["dim"], "PERIODICV=%d" % int(obj["periodic"]), "CAPV=1024"], variant=obj.get("variant", "plain"))
+        if binp is None:
+            log("harness does not compile: " + str(err))
+            return 2
+        rc, out, errtxt = run_bin(binp, obj["args"], timeout=900)
+        print(errtxt[-3000:], out[-300:] if rc == 3 else "")
+        return 1 if rc != 0 else 0
     if obj.get("kind") == "trace":
         consts = dict(Dim=obj["dim"], Height=obj["height"], Periodic=obj["periodic"], Mode="tsm" if obj["mode"] else "single", Pool={0}, MaxPerLeaf=1, MaxParts=1, BlockSizes={1},
                       GroupModes="{FALSE}", StopLevels={2}, Histories='{"full"}', AboveLevelsP1={0}, EmitJson=False, Shard=0, NbShards=1)
